@@ -3,6 +3,8 @@ package main
 import (
 	"encoding/json"
 	"fmt"
+	"math"
+	"math/big"
 
 	"verifharness/fw"
 	"verifharness/grid"
@@ -116,7 +118,7 @@ func judgeSeg(c *fw.Ctx, sc *SegCase) {
 			kx, ky := g.PixOf(ip)
 			gotk[i] = PixKey{kx, ky}
 			cc := g.Centre(kx, ky)
-			if d0, d1 := cc[0]-ip[0], cc[1]-ip[1]; d0 > centreTol || d0 < -centreTol || d1 > centreTol || d1 < -centreTol {
+			if offCentre(cc, ip) {
 				ok = false
 			}
 			if ok && gotk[i] != want[i] {
@@ -215,6 +217,114 @@ func genSegCase(rng *fw.Rng) *SegCase {
 	c.Points = [][2]float64{c.A, c.B}
 	for k := rng.Intn(9); k > 0; k-- {
 		c.Points = append(c.Points, rp())
+	}
+	return c
+}
+
+var c02LongSets = []grid.Spec{{Name: "WebMercatorQuad"}, {Name: "WebMercatorQuad"}, {Name: "EuropeanETRS89_LAEAQuad"}, {Name: "WorldMercatorWGS84Quad"},
+	{Name: "NetherlandsRDNewQuad"}, {Depth: 14, Cell: 8, Origin: 4.4e8, TileWidth: 256}}
+
+// genLongSegCase: an edge across a large part of the extent (hundreds to thousands of km on the metric sets, operands far
+// beyond 2^53 integer units) aimed at a corner of a hot pixel: among the float64 neighbours of the far endpoint the one whose
+// line passes closest to the corner is taken, on a random side. Whether the edge clips the pixel is decided by the exact oracle.
+func genLongSegCase(rng *fw.Rng) *SegCase {
+	spec := fw.Pick(rng, c02LongSets)
+	gs, err := getSet(spec)
+	if err != nil {
+		return genSegCase(rng)
+	}
+	lo, hi := 3, 12
+	if spec.Name == "" {
+		lo, hi = 2, spec.Depth
+	}
+	deepest := lo + rng.Intn(hi-lo+1)
+	req := gs.Request([]int{deepest})
+	pix := req.ResD
+	n := int64(1) << req.D
+	inGrid := func() P { return P{gs.OX + rng.Int63n(n*pix), gs.OY + rng.Int63n(n*pix)} }
+	kx, ky := 1+rng.Int63n(n-2), 1+rng.Int63n(n-2)
+	K := P{gs.OX + (kx+int64(rng.Intn(2)))*pix, gs.OY + (ky+int64(rng.Intn(2)))*pix}
+	var fa [2]float64
+	var ia P
+	for try := 0; ; try++ {
+		fa, _ = grid.ToFloatPoint(inGrid())
+		ia = grid.FromFloatPoint(fa)
+		dx, dy := ia[0]-K[0], ia[1]-K[1]
+		if try > 20 || dx > n*pix/8 || dx < -n*pix/8 || dy > n*pix/8 || dy < -n*pix/8 {
+			break
+		}
+	}
+	// the far endpoint: beyond the corner, as far as the extent allows (at most 3x the distance A-K)
+	t := 0.2 + 2.8*rng.Float64()
+	for ; t > 0.01; t *= 0.7 {
+		bx, by := float64(K[0])+t*float64(K[0]-ia[0]), float64(K[1])+t*float64(K[1]-ia[1])
+		if bx > float64(gs.OX) && bx < float64(gs.OX+n*pix) && by > float64(gs.OY) && by < float64(gs.OY+n*pix) {
+			break
+		}
+	}
+	fb0 := [2]float64{(float64(K[0]) + t*float64(K[0]-ia[0])) / 1e10, (float64(K[1]) + t*float64(K[1]-ia[1])) / 1e10}
+	cross := func(b P) *big.Int { // (b-a) x (K-a), exact
+		x1, y1 := big.NewInt(b[0]-ia[0]), big.NewInt(b[1]-ia[1])
+		x2, y2 := big.NewInt(K[0]-ia[0]), big.NewInt(K[1]-ia[1])
+		return new(big.Int).Sub(new(big.Int).Mul(x1, y2), new(big.Int).Mul(y1, x2))
+	}
+	wantSign := rng.Intn(3) - 1 // -1, 0 (closest of all), +1
+	var best [2]float64
+	var bestAbs *big.Int
+	for sx := -4; sx <= 4; sx++ {
+		for sy := -4; sy <= 4; sy++ {
+			f := fb0
+			for k := sx; k != 0; {
+				if k > 0 {
+					f[0] = math.Nextafter(f[0], math.Inf(1))
+					k--
+				} else {
+					f[0] = math.Nextafter(f[0], math.Inf(-1))
+					k++
+				}
+			}
+			for k := sy; k != 0; {
+				if k > 0 {
+					f[1] = math.Nextafter(f[1], math.Inf(1))
+					k--
+				} else {
+					f[1] = math.Nextafter(f[1], math.Inf(-1))
+					k++
+				}
+			}
+			ib := grid.FromFloatPoint(f)
+			if !gs.InsideExtent(ib) || ib[0] >= gs.OX+n*pix || ib[1] >= gs.OY+n*pix {
+				continue
+			}
+			cr := cross(ib)
+			if wantSign != 0 && cr.Sign() != wantSign {
+				continue
+			}
+			if a := new(big.Int).Abs(cr); bestAbs == nil || a.Cmp(bestAbs) < 0 {
+				best, bestAbs = f, a
+			}
+		}
+	}
+	if bestAbs == nil {
+		return genSegCase(rng)
+	}
+	c := &SegCase{TMS: spec, Deepest: deepest, IDs: []int{deepest}, A: fa, B: best}
+	if rng.Bool() {
+		c.A, c.B = c.B, c.A
+	}
+	c.Points = [][2]float64{c.A, c.B}
+	// hot pixels around the corner: 1-4 of the four pixels that meet in K
+	for _, d := range [][2]int64{{0, 0}, {-1, 0}, {0, -1}, {-1, -1}} {
+		if rng.Chance(1, 2) || len(c.Points) == 2 {
+			ip := P{K[0] + d[0]*pix + pix/4 + rng.Int63n(pix/2), K[1] + d[1]*pix + pix/4 + rng.Int63n(pix/2)}
+			f, _ := grid.ToFloatPoint(ip)
+			if gs.InsideExtent(grid.FromFloatPoint(f)) {
+				c.Points = append(c.Points, f)
+			}
+		}
+	}
+	if deepest > lo && rng.Chance(1, 3) {
+		c.IDs = append(c.IDs, deepest-1)
 	}
 	return c
 }
@@ -343,6 +453,12 @@ func init() {
 			}
 			switch {
 			case c.Idx < nr:
+				if c.Idx%20 == 7 {
+					sc := genLongSegCase(c.Rng)
+					c.Rec.Count("long_edge_aimed_at_a_hot_pixel_corner")
+					judgeSeg(c, sc)
+					break
+				}
 				judgeSeg(c, genSegCase(c.Rng))
 			case c.Idx < nr+np:
 				snapRun(prC02b, true, monB)(c)
@@ -370,10 +486,10 @@ func init() {
 			}
 			judgeSeg(c, &sc)
 		},
-		Rule: "(a) SnapClosestPoints after InsertPoint of a chosen vertex set, compared element by element with the oracle's Route (exact closed-segment / half-open-pixel intervals ordered along the segment): random quarter-lattice segments in windows centred on quadtree boundaries, real-grid coordinates on and one unit off pixel borders, plus the exhaustive 3x3-pixel window (every ordered lattice segment x every subset of the other pixels); (b) SnapPolygon of valid polygons where nothing collapses must equal the routed chains up to rotation; non-trivial = route of >= 3 pixels, or polygon without collapse; distinct by case hash",
+		Rule: "(a) SnapClosestPoints after InsertPoint of a chosen vertex set, compared element by element with the oracle's Route (exact closed-segment / half-open-pixel intervals ordered along the segment): random quarter-lattice segments in windows centred on quadtree boundaries, real-grid coordinates on and one unit off pixel borders, 1 case in 20 an edge across a large part of the extent (operands beyond 2^53 units) aimed at a corner of a hot pixel via the float64 neighbours of its far endpoint, plus the exhaustive 3x3-pixel window (every ordered lattice segment x every subset of the other pixels); (b) SnapPolygon of valid polygons where nothing collapses must equal the routed chains up to rotation; non-trivial = route of >= 3 pixels, or polygon without collapse; distinct by case hash",
 		Required: func(string) []string {
 			return []string{"tie:endpoint_on_corner", "tie:endpoint_on_vertical_border", "tie:endpoint_on_horizontal_border", "tie:edge_along_vertical_border", "tie:edge_along_horizontal_border",
-				"tie:edge_through_corner_diagonal", "tie:edge_through_corner_antidiagonal", "tie:degenerate_hot_set", "polygon_level_cases_without_collapse", "exh:window"}
+				"tie:edge_through_corner_diagonal", "tie:edge_through_corner_antidiagonal", "tie:degenerate_hot_set", "polygon_level_cases_without_collapse", "exh:window", "long_edge_aimed_at_a_hot_pixel_corner"}
 		},
 		MinNonTriv:  1000,
 		Exhaustive:  map[string]string{"exh:window": "all ordered segments with endpoints on the 13x13 quarter-pixel lattice of a 3x3-pixel window x every subset of the window's other pixels as extra hot pixels x 3 grid depths x 4 window alignments (thorough: complete; quick: the 1/24 slice selected by the seed)"},
